@@ -318,6 +318,17 @@ func (cc *checkCtx) verifyFn(name string, fn *ssa.Function) {
 	}
 	t0 := time.Now()
 	res := x.VerifyFunction(fn, c)
+	if _, isSpec := res.Err.(specErr); isSpec && loopShapeMismatch(res.Err.Error()) && cc.fnInLedger(name) {
+		// A loop clause of the contract no longer fits any loop (a loop was removed or is of another
+		// kind now). The function verified on the pinned tree, so the clauses that cannot be placed are
+		// dropped and everything else - above all the postconditions they helped to prove - is checked
+		// without them: the verdict then rests on the obligations stated over the function's interface.
+		fmt.Fprintf(os.Stderr, "gvc: %s: %v; re-checking without the loop clauses that no longer fit\n", name, res.Err)
+		cc.notes[name+": loop clauses that no longer fit the loop structure were dropped ("+trunc(res.Err.Error(), 160)+")"] = true
+		x = w.newExec()
+		x.lenientLoops = true
+		res = x.VerifyFunction(fn, c)
+	}
 	rep.ExecS = time.Since(t0).Seconds()
 	for _, t := range res.Trusted {
 		cc.trusted[t] = true
@@ -338,8 +349,8 @@ func (cc *checkCtx) verifyFn(name string, fn *ssa.Function) {
 		fmt.Fprintf(os.Stderr, "gvc: %s: %v\n", name, res.Err)
 		if cc.fnInLedger(name) {
 			// It verified on the pinned tree and can no longer be processed: its contract names
-			// something that no longer exists (a renamed local, a removed loop) or its body left
-			// the supported subset. No obligation could be generated, so nothing failed: this is
+			// something that no longer exists (a renamed local) or its body left the supported subset
+			// (loop clauses that no longer fit a loop were already dropped and the rest re-checked, above). No obligation could be generated, so nothing failed: this is
 			// reported as undecided, never as a violation (a harmless refactoring does this too).
 			if rep.Status == "contract-error" && strings.Contains(res.Err.Error(), "no field ") {
 				// the contract speaks about a struct field that no longer exists: a change of the data
@@ -716,4 +727,15 @@ func oblFunc(name string) string {
 		return name[:i]
 	}
 	return name
+}
+
+// loopShapeMismatch recognises contract errors that mean "this loop clause was written for a loop that is
+// no longer there in that form".
+func loopShapeMismatch(msg string) bool {
+	for _, pat := range []string{"is not a map range", "has no range index", "): no loop ", ": no loop ", "is not being executed here", "is not a string range"} {
+		if strings.Contains(msg, pat) {
+			return true
+		}
+	}
+	return false
 }
